@@ -348,9 +348,21 @@ func (x *Exec) externCall(f *frame, in ssa.Instruction, callee *ssa.Function, c 
 		switch baseName(callee) {
 		case "Reset", "Close", "Discard", "Free", "Peek":
 			x.assumed["extern "+name+": changes only the reader's cursor / buffer reference counts (result unconstrained)"] = true
+			if bn := baseName(callee); bn != "Peek" && bn != "Free" && len(args) > 0 && args[0].T != "" {
+				// the number of unread bytes of this reader changes (to an unknown value)
+				x.comp("MemRd_remaining", "(Array Int Int)")
+				h := x.heapGet(st, "MemRd_remaining", "(Array Int Int)")
+				st.heap["MemRd_remaining"] = x.define(x.fresh("MemRd_remaining"), "(Array Int Int)", sx("store", h, args[0].T, x.havocConst("rem", "Int")))
+			}
 			return x.resultVal(st, callee.Signature, "memrd"), true
 		case "Remaining":
-			x.assumed["extern (*mem.Reader).Remaining: number of unread bytes (>= 0), no effect"] = true
+			x.assumed["extern (*mem.Reader).Remaining: number of unread bytes (>= 0), the same until the reader is reset, discarded from or closed; no effect"] = true
+			if len(args) > 0 && args[0].T != "" {
+				x.comp("MemRd_remaining", "(Array Int Int)")
+				r := x.define(x.fresh("remaining"), "Int", sx("select", x.heapGet(st, "MemRd_remaining", "(Array Int Int)"), args[0].T))
+				x.assume(st, and(sx(">=", r, "0"), sx("<=", r, "281474976710656")))
+				return Val{T: f.fromInt(r, callee.Signature.Results().At(0).Type())}, true
+			}
 			r := x.resultVal(st, callee.Signature, "remaining")
 			x.assume(st, sx(">=", f.toInt(r.T, callee.Signature.Results().At(0).Type()), "0"))
 			return r, true
